@@ -16,7 +16,7 @@ def run(ck, tier, seed):
         if o.get("skipped"):
             ck.cov["not_run_unbounded_growth"] = ck.cov.get("not_run_unbounded_growth", 0) + 1
             continue
-        if "parse" in o:
+        if "parse" in o or o.get("crash"):
             continue
         if p.get("funcs"):
             continue      # bytecode cannot call declared functions; such modules are not compiled by the product
